@@ -84,6 +84,8 @@ func (b *proxyIDRingBuffer) Append(proxyID int64, sourceShard history.ClusterSha
 			}
 		}
 	}
+	// Filling holes may have used up the remaining capacity.
+	b.ensureCapacity()
 	pos := (b.head + b.size) % len(b.entries)
 	b.entries[pos] = proxyIDMapping{sourceShard: sourceShard, sourceTask: sourceTask}
 	b.size++
